@@ -20,12 +20,12 @@ from ..refcalc_neutron import OUTPUTS
 
 PROPERTY = "C04"
 RULE = ("base: 1-8 distinct atoms with neutron data (ions, isotopes, D/T, energy dependent atoms 5/17 of the draws) with "
-        "documented count spellings, density 1e-3..1e2, wavelength in [0.05, 50] A. Per base compound: density x k "
-        "(k in 1e-3..1e3; SLDs and cross sections x k, penetration / k, rel 1e-12); all counts x k as a bracketed "
-        "string and as a dict (unchanged, rel 1e-11); a regrouped variant = permutation, split counts, 1-3 nesting "
+        "documented count spellings, density 1e-12..1e2 (log-uniform, dilute tail included), wavelength in [0.05, 50] A. Per base compound: "
+        "density x k (k in 1e-9..1e9; SLDs and cross sections x k, penetration / k, rel 1e-12); all counts x k as a bracketed "
+        "string (k = 1e-12..1e12 in the grammar's decimals) and as a dict (k in 1e-12..1e12) (unchanged, rel 1e-11); a regrouped variant = permutation, split counts, 1-3 nesting "
         "levels of implicit/explicit groups with multipliers, same multiset verified in Fractions (unchanged, rel 1e-11); "
         "dict route vs string route; energy=E vs wavelength=neutron_wavelength(E) (rel 1e-12); vector call of length "
-        "1..12 (list/array) vs the scalar calls (shape exact, rel 1e-14); the same vector call repeated straight away at "
+        "1..12 (list/tuple/float array, integer-valued list/tuple/int32/int64 array) vs the scalar calls at the float values (shape exact, rel 1e-14); the same vector call repeated straight away at "
         "density x k, and again (twice) after the caller overwrote that list/array in place with other wavelengths "
         "(entries vs scalar calls and vs the density relation: a result must not depend on earlier calls); every result: imaginary and incoherent SLD, "
         "cross sections, penetration >= 0. Every comparison adds the floor 1e-13 x operand scale. Conversions: E, "
@@ -43,7 +43,8 @@ ASSUMPTIONS = [
 MULTS = [Fraction(2), Fraction(4), Fraction(5), Fraction(10), Fraction(1, 2), Fraction(1, 4), Fraction(8),
          Fraction(5, 2), Fraction(20), Fraction(1)]
 SPLITS = [Fraction(1, 2), Fraction(1, 4), Fraction(1, 5), Fraction(3, 4)]
-KCOUNT = ["2", "3", "10", "0.5", "7.25", "1000", "0.001", "12.", ".5", "64"]
+KCOUNT = ["2", "3", "10", "0.5", "7.25", "1000", "0.001", "12.", ".5", "64",
+          "0.000000001", "0.0000000001", ".000000000001", "1000000000", "1000000000000", "25000000000."]
 
 
 # ----------------------------------------------------------------------
@@ -202,10 +203,9 @@ def check_relations(ctx, v):
     same("c04:energy-overrides-wavelength", r5, r7, floors, 1e-12, case, "%s energy=%r with a wavelength" % (s0, en))
 
     # vector vs scalar
-    arg = list(vec) if v["vform"] == "list" else np.array(vec, dtype=float)
     how = v["vby"]
-    if how == "energy":
-        arg = [R.energy(l) for l in vec] if v["vform"] == "list" else np.array([R.energy(l) for l in vec])
+    vals, vlam = ng.wl_values(v["vform"], how, vec)      # whole A / whole meV for the integer forms
+    arg = ng.wl_object(v["vform"], vals)[0]
     target = pt.formula(s_var if v["vvar"] else s0)        # parsed once; a Formula is a formula initializer
     rv = _scat(target, rho, **{how: arg})
     for o in OUTPUTS:
@@ -218,24 +218,21 @@ def check_relations(ctx, v):
         ng.check_shape("c04:vector", o, rv2[o], (len(vec),), case)
     nonneg(rv2, case, "repeated vector call")
     for i in range(len(vec)):
-        li = vec[i] if how == "wavelength" else R.wavelength(R.energy(vec[i]))
-        fl = R.scattering(comp, rho, li, E["axis"])[1]
+        fl = R.scattering(comp, rho, vlam[i], E["axis"])[1]
         same("c04:repeat:density-scale", rv, pick(rv2, i), fl, 1e-12, case,
              "vector call repeated at density x %r, entry %d" % (k, i), fac, index=i)
     for i in range(len(vec)):
-        x = arg[i]
-        x = float(x)
+        x = float(vals[i])                                 # the scalar call is made at the float value
         rs = _scat(target, rho, **{how: x})
         for o in OUTPUTS:
             ng.check_shape("c04:scalar", o, rs[o], (), case)
-        li = vec[i] if how == "wavelength" else R.wavelength(R.energy(vec[i]))
-        fl = R.scattering(comp, rho, li, E["axis"])[1]
+        fl = R.scattering(comp, rho, vlam[i], E["axis"])[1]
         same("c04:vector-vs-scalar", rv, rs, fl, 1e-14, case,
              "%s[%d] of the vector call vs scalar %s=%r" % (how, i, how, x), index=i)
     # the caller overwrites the same list/array with other wavelengths and calls again (twice in a row)
     vec2 = [v["vec2"][i % len(v["vec2"])] for i in range(len(vec))] if v.get("vec2") else None
-    if vec2:
-        vals = [R.energy(l) for l in vec2] if how == "energy" else vec2
+    if vec2 and not isinstance(arg, tuple):
+        vals, vlam2 = ng.wl_values(v["vform"], how, vec2)
         arg[:] = vals
         ra = _scat(target, rho, **{how: arg})
         rb = _scat(target, rho * k, **{how: arg})
@@ -246,8 +243,7 @@ def check_relations(ctx, v):
         for i in range(min(len(vec2), 4)):
             x = float(vals[i])
             rs = _scat(target, rho, **{how: x})
-            li = vec2[i] if how == "wavelength" else R.wavelength(R.energy(vec2[i]))
-            fl = R.scattering(comp, rho, li, E["axis"])[1]
+            fl = R.scattering(comp, rho, vlam2[i], E["axis"])[1]
             same("c04:repeat:wavelengths-changed-in-place", ra, rs, fl, 1e-14, case,
                  "%s[%d] after the caller overwrote the vector in place vs scalar %s=%r" % (how, i, how, x), index=i)
             same("c04:repeat:density-scale", ra, pick(rb, i), fl, 1e-12, case,
@@ -322,15 +318,16 @@ def strat_relations():
     logf = lambda lo, hi: st.floats(lo, hi).map(lambda x: float("%.6g" % 10 ** x))
     return st.fixed_dictionaries({
         "atoms": atoms,
-        "density": st.one_of(ng.density_value(), logf(-3, 2)),
+        "density": st.one_of(ng.density_value(), logf(-3, 2), logf(-12, 2)),
         "lam": ng.one_wavelength(),
-        "kd": logf(-3, 3),
+        "kd": st.one_of(logf(-3, 3), logf(-9, 9), st.sampled_from([1e-9, 1e-5, 1e9])),
         "kc": st.sampled_from(KCOUNT),
-        "kf": logf(-3, 3),
+        "kf": st.one_of(logf(-3, 3), logf(-12, 12), st.sampled_from([1e-12, 1e-10, 1e12])),
         "r": st.lists(st.integers(0, 10 ** 6), min_size=6, max_size=12),
         "vec": st.lists(ng.one_wavelength(), min_size=1, max_size=12),
         "vec2": st.lists(ng.one_wavelength(), min_size=1, max_size=6),
-        "vform": st.sampled_from(["list", "array"]),
+        "vform": st.sampled_from(["list", "array", "array", "tuple", "intlist", "intlist", "inttuple", "intarray32",
+                                  "intarray64"]),
         "vby": st.sampled_from(["wavelength", "wavelength", "energy"]),
         "vvar": st.booleans(),
     })
